@@ -38,7 +38,7 @@ ABSENT = [
     (r"(op|avx2)_swzw_4_3_\w+_holes", "3-letter accessors of a vec4 that name the 4th component are not assignable: the duplicate test of _swizzle compares the filler index E3 = 3 too"),
     (r"xyzw_swz_(fn|mem)_\d_\d_(rgba|stpq)", "GLM_FORCE_XYZW_ONLY removes the rgba / stpq names"),
     (r"(op|avx2)_swz_op_2_3_\w+", "3-letter operator accessors of a vec2 are declared _swizzle<3,T,Q,E0,E1,E2,-1>, which has no operator() (type_vec2.hpp GLM_SWIZZLE2_3_MEMBERS)"),
-    (r"(op|avx2)_swz(_op|w)_\d_2_\w+_au32", "_swizzle_base1<2, uint, aligned> is not redirected to the scalar implementation as float and int are (type_vec_simd.inl)"),
+    (r"(op|avx2)_swz_op_\d_2_\w+_au32", "_swizzle_base1<2, uint, aligned> is not redirected to the scalar implementation as float and int are (type_vec_simd.inl)"),
     (r"(op|avx2)_swz_op_\d_\d_\w+_aoth", "_swizzle_base1<N, T, aligned Q> has an operator() for float, int and uint only (type_vec_simd.inl)"),
     (r"\w+_cvec_4_s_s_s_v1", "vec4(X, Y, Z, vec1) is the one scalar/vec1 combination of four arguments that type_vec4.hpp does not declare"),
     (r"(fn|op|avx2)x_cvec_\d((_s)+_v1(_s|_v1)*|_v1(_s|_v1)+)", "the scalar/vec1 mixes take vec<1, A, Q> with the qualifier of the result"),
@@ -58,105 +58,168 @@ def implicated(logtext, names):
     return [n for n in names if n in seen]
 
 
-def compile_cmd(cfg, cxx="g++"):
-    return [cxx, "-std=c++17", "-I" + vlib.REPO, "-I" + os.path.join(vlib.VERIF, "harness")] + gen.CONFIGS[cfg]["flags"]
+def base_cmd(cfg, cxx):
+    return [cxx, "-std=c++17", "-I" + vlib.REPO, "-I" + os.path.join(vlib.VERIF, "harness")] + gen.CONFIGS[cfg]["flags"] + ["-w"]
 
 
-class Cfg:
-    def __init__(self, ctx, name, cfg, items, gdir, cxx="g++"):
-        self.ctx, self.name, self.cfg, self.cxx, self.gdir = ctx, name, cfg, cxx, gdir
-        self.batches = gen.make_batches(cfg, items, not ctx.quick, is_hole)
+class Family:
+    """the batches of one configuration (generated once) and their compile census"""
+
+    def __init__(self, ctx, key, cfg, thorough, cxx, gdir):
+        self.ctx, self.key, self.cfg, self.cxx = ctx, key, cfg, cxx
+        self.gdir = os.path.join(gdir, key)
+        os.makedirs(self.gdir, exist_ok=True)
+        self.batches = gen.make_batches(cfg, items_cache["items"], thorough, is_hole)
+        gen.write_batches(self.gdir, self.batches)
+        self.by_name = {b.name: b for b in self.batches}
         self.names = [b.name for b in self.batches]
-        self.bin = None
-        self.absent_now = []
+        self.absent = [n for n in self.names if absent_reason(n)]
+        self.present = [n for n in self.names if not absent_reason(n)]
+        self.verified = False
         self.appeared = []
-        self.failed = []
+        self.pch = None
 
-    def prepare(self):
-        """census of the batches recorded as absent, then build (and localise a failure to batches)"""
-        absent = [n for n in self.names if absent_reason(n)]
-        present = [n for n in self.names if not absent_reason(n)]
-        if absent:
-            tu = os.path.join(self.gdir, "census_%s.cpp" % self.name)
-            gen.write_tu(tu, self.cfg, absent, no_main=True)
-            rc, out = vlib.sh(compile_cmd(self.cfg, self.cxx) + ["-fsyntax-only", "-w", tu], timeout=900)
-            bad = set(implicated(out, absent)) if rc != 0 else set()
-            self.absent_now = [n for n in absent if n in bad]
-            self.appeared = [n for n in absent if n not in bad]
-            present = [n for n in self.names if n in set(present) | set(self.appeared)]
-        flags = gen.CONFIGS[self.cfg]["flags"]
+    # -- census of the batches recorded as absent: each is compiled on its own (thorough tier)
+    def make_pch(self):
+        hdr = os.path.join(self.gdir, "pch_%s.hpp" % self.key)
+        with open(hdr, "w") as f:
+            f.write('#define C17_CFG "%s"\n#define C17_NO_MAIN\n#include "c17.cpp"\n' % self.key)
+        if self.cxx == "g++":
+            rc, out = vlib.sh(base_cmd(self.cfg, self.cxx) + ["-x", "c++-header", hdr, "-o", hdr + ".gch"], timeout=600)
+        else:
+            rc, out = vlib.sh(base_cmd(self.cfg, self.cxx) + ["-x", "c++-header", hdr, "-o", hdr + ".pch"], timeout=600)
+        if rc != 0:
+            raise vlib.Infra("precompiled header for the C17 census failed (%s):\n%s" % (self.key, out[-2000:]))
+        self.pch = hdr
+
+    def census_one(self, n):
+        tu = os.path.join(self.gdir, "census_%s.cpp" % n)
+        with open(tu, "w") as f:
+            f.write('%s#include "%s.inc"\n' % ('#include "pch_%s.hpp"\n' % self.key if self.cxx == "g++" else "", n))
+        cmd = base_cmd(self.cfg, self.cxx) + ["-fsyntax-only"] + ([] if self.cxx == "g++" else ["-include-pch", self.pch + ".pch"]) + [tu]
+        rc, out = vlib.sh(cmd, timeout=600)
+        return n, rc == 0
+
+
+class Unit:
+    """one harness binary: a subset of the present batches of a family"""
+
+    def __init__(self, name, fam, cxx, opt, select):
+        self.name, self.fam, self.cxx, self.opt, self.select = name, fam, cxx, opt, select
+        self.bin = None
+        self.failed = []
+        self.used = []
+
+    def build(self):
+        fam = self.fam
+        mine = [n for i, n in enumerate(fam.present) if self.select(n, i)]
+        flags = gen.CONFIGS[fam.cfg]["flags"]
         for attempt in range(4):
-            tu = os.path.join(self.gdir, "c17_%s.cpp" % self.name)
-            gen.write_tu(tu, self.cfg, present, label=self.name)
+            tu = os.path.join(fam.gdir, "c17_%s.cpp" % self.name)
+            gen.write_tu(tu, fam.cfg, mine, label=self.name)
             t = time.time()
-            b, lg = vlib.build("c17" + self.name, tu, flags, cxx=self.cxx, opt="-O1")
+            b, lg = vlib.build("c17" + self.name, tu, flags, cxx=self.cxx, opt=self.opt)
             if b:
-                self.bin = b
-                self.present = present
-                log("[build] c17 %s: %d batches (%.1fs)" % (self.name, len(present), time.time() - t))
+                self.bin, self.used = b, mine
+                log("[build] c17 %s (%s %s): %d batches (%.1fs)" % (self.name, self.cxx, self.opt, len(mine), time.time() - t))
                 return
-            bad = implicated(lg, present)
+            bad = implicated(lg, mine)
             if not bad:
-                self.failed.append(("<translation unit>", lg))
+                self.failed.append(("<translation unit %s>" % self.name, lg))
                 return
             for n in bad:
                 self.failed.append((n, lg))
-            present = [n for n in present if n not in set(bad)]
+            mine = [n for n in mine if n not in set(bad)]
+
+
+items_cache = {}
+IS_SWZ = lambda n, i: "_swz" in n
+IS_CTOR = lambda n, i: "_swz" not in n
+ALL = lambda n, i: True
 
 
 def run(ctx):
     lst = ctx.scratch.path("c17_list.txt")
     ctx.mc("MC_C17", env={"OUT": lst},
            what="all 4+16+64+256 index patterns x source lengths 1..4 x 3 letter sets (bijection, read, write-then-read, frame), "
-                "all 126 vector constructor shapes for vec1..vec4, 81 matrix conversions, 5 quaternion forms; emits the enumeration for the generator")
+                "all 66 vector constructor shapes for vec1..vec4, 81 matrix conversions, 5 quaternion forms; emits the enumeration for the generator")
     if not os.path.exists(lst):
         raise vlib.Infra("MC_C17 did not emit the enumeration")
     items = gen.parse_list(lst)
+    items_cache["items"] = items
     ctx.extra["spec_enumerated"] = {k: len(v) for k, v in items.items()}
-    if len(items["swz"]) != 3 * (4 + 30 + 120 + 340) or len(items["mat"]) != 81:
+    if len(items["swz"]) != 3 * (4 + 30 + 120 + 340) or len(items["mat"]) != 81 or len(items["ctor"]) != 66:
         raise vlib.Infra("MC_C17 enumeration incomplete: %s" % ctx.extra["spec_enumerated"])
     gdir = ctx.scratch.path("gen")
     os.makedirs(gdir, exist_ok=True)
-    plan = [("fn", "fn", "g++"), ("op", "op", "g++"), ("xyzw", "xyzw", "g++"), ("qwxyz", "qwxyz", "g++"), ("qxyzw", "qxyzw", "g++")]
-    if not ctx.quick:
-        plan += [("avx2", "avx2", "g++"), ("fnclang", "fn", "clang++"), ("opclang", "op", "clang++")]
-    cfgs = []
-    for name, cfg, cxx in plan:
-        c = Cfg(ctx, name, cfg, items, gdir, cxx)
-        gen.write_batches(gdir, c.batches)
-        cfgs.append(c)
-    vlib.pmap(lambda c: c.prepare(), cfgs)
+    th = not ctx.quick
+    fams = {"fn": Family(ctx, "fn", "fn", th, "g++", gdir), "op": Family(ctx, "op", "op", th, "clang++", gdir),
+            "xyzw": Family(ctx, "xyzw", "xyzw", th, "g++", gdir), "qwxyz": Family(ctx, "qwxyz", "qwxyz", th, "g++", gdir),
+            "qxyzw": Family(ctx, "qxyzw", "qxyzw", th, "g++", gdir)}
+    units = [Unit("fn_swz", fams["fn"], "g++", "-O1", IS_SWZ), Unit("fn_ctor", fams["fn"], "g++", "-O1", IS_CTOR),
+             Unit("op_swz", fams["op"], "clang++", "-O0", IS_SWZ), Unit("op_ctor", fams["op"], "clang++", "-O0", IS_CTOR),
+             Unit("xyzw", fams["xyzw"], "g++", "-O1", ALL), Unit("qwxyz", fams["qwxyz"], "g++", "-O1", ALL), Unit("qxyzw", fams["qxyzw"], "g++", "-O1", ALL)]
+    if th:
+        fams["avx2"] = Family(ctx, "avx2", "avx2", True, "clang++", gdir)
+        fams["opg"] = Family(ctx, "opg", "op", False, "g++", gdir)         # g++ is very slow on the operator form: the quick-size lists
+        units += [Unit("avx2_swz", fams["avx2"], "clang++", "-O0", IS_SWZ), Unit("avx2_ctor", fams["avx2"], "clang++", "-O0", IS_CTOR),
+                  Unit("fnclang_swz", fams["fn"], "clang++", "-O1", IS_SWZ), Unit("fnclang_ctor", fams["fn"], "clang++", "-O1", IS_CTOR),
+                  Unit("opg_ctor", fams["opg"], "g++", "-O0", IS_CTOR)]
+        units += [Unit("opg_swz%d" % k, fams["opg"], "g++", "-O0", (lambda k: lambda n, i: "_swz" in n and i % 6 == k)(k)) for k in range(6)]
+        # census: every batch recorded as absent is compiled on its own
+        cens = [f for f in fams.values() if f.absent and f.key != "opg"]
+        vlib.pmap(lambda f: f.make_pch(), cens)
+        jobs = [(f, n) for f in cens for n in f.absent]
+        for (f, n), (_, ok) in zip(jobs, vlib.pmap(lambda j: j[0].census_one(j[1]), jobs)):
+            if ok:
+                f.appeared.append(n)
+        for f in cens:
+            f.verified = True
+            f.present = [n for n in f.names if n in set(f.present) | set(f.appeared)]
+            f.absent = [n for n in f.absent if n not in set(f.appeared)]
+            if f.appeared:
+                log("[census] %s: %d batch(es) recorded as absent now compile and are judged like the others: %s" % (f.key, len(f.appeared), " ".join(f.appeared[:8])))
+    vlib.pmap(lambda u: u.build(), units)
 
-    census = {}
     traces = []
-    for c in cfgs:
-        census[c.name] = {"batches": len(c.names), "compiled": len(getattr(c, "present", [])), "absent": c.absent_now, "appeared": c.appeared}
-        if c.appeared:
-            log("[census] %s: %d batch(es) recorded as absent now compile and are judged like the others: %s" % (c.name, len(c.appeared), " ".join(c.appeared[:8])))
-        seen = set()
-        for n, lg in c.failed:
-            if n in seen:
+    reported = set()
+    for u in units:
+        for n, lg in u.failed:
+            if (u.fam.key, n) in reported:
                 continue
-            seen.add(n)
-            what = next((b.what for b in c.batches if b.name == n), n)
+            reported.add((u.fam.key, n))
+            what = u.fam.by_name[n].what if n in u.fam.by_name else n
             tail = "\n".join(l for l in lg.splitlines() if (n + ".inc") in l or "error" in l)[:6000]
-            rp = ctx.write_replay("compile-%s" % n, [json.dumps({"compile_error": n, "cfg": c.name, "flags": gen.CONFIGS[c.cfg]["flags"]})], tail)
-            ctx.violation("batch %s (%s) compiles on the unchanged tree but not on this one (configuration %s: %s)"
-                          % (n, what, c.name, " ".join(gen.CONFIGS[c.cfg]["flags"])), rp)
-        if c.bin:
-            ctx.builds.append("c17 %s %s %s" % (c.name, c.cxx, " ".join(gen.CONFIGS[c.cfg]["flags"])))
-            tr = ctx.scratch.path("c17_%s.ndjson" % c.name)
-            ok, out = ctx.run_harness(c.bin, [tr], tr)
+            rp = ctx.write_replay("compile-%s" % n, [json.dumps({"compile_error": n, "unit": u.name, "cxx": u.cxx, "flags": gen.CONFIGS[u.fam.cfg]["flags"]})], tail)
+            ctx.violation("batch %s (%s) compiles on the unchanged tree but not on this one (%s %s)"
+                          % (n, what, u.cxx, " ".join(gen.CONFIGS[u.fam.cfg]["flags"])), rp)
+        if u.bin:
+            ctx.builds.append("c17 %s %s %s %s (%d batches)" % (u.name, u.cxx, u.opt, " ".join(gen.CONFIGS[u.fam.cfg]["flags"]), len(u.used)))
+            tr = ctx.scratch.path("c17_%s.ndjson" % u.name)
+            ok, out = ctx.run_harness(u.bin, [tr], tr)
             if ok:
                 traces.append(tr)
+    # the census as events: one per absent batch, classified by Trace_C17 (by design -> skip, deviation -> known, anything else -> bad)
+    cen = ctx.scratch.path("c17_census.ndjson")
+    census = {}
+    with open(cen, "w") as g:
+        for f in fams.values():
+            census[f.key] = {"batches": len(f.names), "compiled": len(f.present), "absent": len(f.absent), "appeared": f.appeared, "recompiled_this_run": f.verified}
+            if f.key == "opg":
+                continue
+            for n in f.absent:
+                ev = dict(f.by_name[n].absent)
+                ev["batch"] = n
+                ev["verified"] = 1 if f.verified else 0
+                g.write(json.dumps(ev, separators=(",", ":")) + "\n")
+    traces.append(cen)
     ctx.extra["compile_census"] = census
-    if traces:
-        allp = ctx.scratch.path("c17.ndjson")
-        with open(allp, "wb") as g:
-            for tr in traces:
-                with open(tr, "rb") as f:
-                    g.write(f.read())
-        ctx.validate(TRACE_MODULE, allp, label="all")
+    allp = ctx.scratch.path("c17.ndjson")
+    with open(allp, "wb") as g:
+        for tr in traces:
+            with open(tr, "rb") as f:
+                g.write(f.read())
+    ctx.validate(TRACE_MODULE, allp, label="all")
     ctx.rule("one event per swizzle accessor name enumerated by MC_C17 (every 1..4-letter name over xyzw / rgba / stpq for source lengths 1..4) in each "
              "implementation that has it (member functions, operator members read through the conversion and through operator(), gtx/vec_swizzle free "
              "functions, plain members) x element types x qualifiers (packed, and aligned = the _mm_shuffle specialisations); four assignments per "
